@@ -72,7 +72,9 @@ def h_pastified(f, N):
         env.observe('out', got)
         st = sat(A, f, w, N)
         res = []
-        for i in range(h, N):
+        from .c03 import past_reach
+        reach = past_reach(f)           # a past operator above a future one still sees start-up values there (C03's known finding)
+        for i in range(h + reach, N):
             res += sound(A, 'pastified@%d' % i, got[i], st[i - h])
         return res
     return body
@@ -227,11 +229,17 @@ def obligations(tier, rng):
                 pf.append((k, inn, a_, b_))
             if (a_, b_) == (0, 1):
                 pf += [('next', inn), ('and', inn, ('next', Y)), ('implies', ('next', Y), inn), ('or', ('eventually_t', Y, 0, 1), inn)]
+    # three levels: a bounded past operator over a future one, next to a sibling with a larger horizon
+    FU = ('eventually_t', X, 0, 1)
+    for g3 in [('once_t', FU, 0, 1), ('historically_t', FU, 1, 2), ('since_t', FU, Z, 0, 1), ('prev', FU), ('once_t', ('next', X), 1, 2), ('rise', ('always_t', X, 0, 1))]:
+        pf += [('and', g3, ('eventually_t', Y, 0, 3)), ('or', ('always_t', Y, 1, 3), g3), ('until_t', g3, Y, 1, 3), ('implies', ('next', ('next', ('next', Y))), g3)]
+    from .c03 import past_reach
     for f in pf:
-        if not refsem.has_future(f) or refsem.hor(f) == refsem.INF:
+        if not refsem.has_future(f) or refsem.hor(f) == refsem.INF or past_reach(f) > 4:
             continue
         g = subst(f, ATOMS)
-        for N in ([refsem.hor(f) + 3] if quick else [refsem.hor(f) + 2, refsem.hor(f) + 4]):
+        hr = refsem.hor(f) + past_reach(f)
+        for N in ([hr + 3] if quick else [hr + 2, hr + 4]):
             out.append(ob('C07', 'pastified', 'pastified/%s/N=%d' % (text(g), N), f=g, N=N))
     if not quick:
         for i in range(300):
